@@ -102,6 +102,10 @@ def run(ctx):
         add(rng.choice(['plain', 'renamed', 'renamed', 'split', 'same']), rng.random() < 0.5, start + inter)
     # the scenarios the statement names explicitly
     named = [
+        # byte-identical content written again (same bytes, newer mtime; re-created after a delete)
+        [('write', 'main', 'fixed'), ('load', False), ('delete', 'main'), ('load', False), ('write', 'main', 'fixed'), ('load', False)],
+        [('write', 'main', 'fixed'), ('write', 'd1/a', 'fixed'), ('load', False), ('delete', 'd1/a'), ('load', False), ('write', 'd1/a', 'fixed'), ('load', False),
+         ('write', 'main', 'fixed'), ('load', False)],
         [('write', 'main', 'new'), ('load', False), ('write', 'd1/a', 'new'), ('load', False), ('write', 'main', 'both'), ('load', False),
          ('delete', 'd1/a'), ('load', False)],
         [('write', 'main', 'new'), ('load', False), ('delete', 'main'), ('load', False), ('load', False), ('write', 'main', 'old'), ('load', False)],
